@@ -278,7 +278,14 @@ def ob_policy(h, shape):
     ex = ['*' if (shape.get('ex_wild') and i == 0) else 'ex%d' % i for i in range(nex)]
     inc = ['*' if (shape.get('in_wild') and i == 0) else 'in%d' % i for i in range(nin)]
     rem = ['url%d' % i for i in range(nrem)] if nrem >= 0 else None      # -1: no repository / remotes unavailable
+    # the whole match relation is decided up front (an answer the code never asks for is still part of the input)
     table = {}
+    for pat in ex + inc:
+        if pat == '*':
+            continue
+        for u in (rem or []):
+            if (pat, u) not in table:
+                table[(pat, u)] = h.choice(2) == 1
     P.state['c08_policy'] = {'table': table, 'remotes': rem}
     ps = ['default', 'notes', 'local', 'Notes ', 'garbage'][h.choice(5)]
     dps = [None, 'default', 'notes', 'local', 'garbage'][h.choice(5)]
@@ -361,11 +368,18 @@ def _replay_post_commit(v, native):
             env['GIT_AI_API_BASE_URL'] = 'http://127.0.0.1:9/git-ai-test'
         env['GIT_AI_TEST_DB_PATH'] = os.path.join(home, 'db')
         env['GITAI_TEST_DB_PATH'] = os.path.join(home, 'db')
-        payload = {'prompts': inp.get('prompts', 1)}
-        if cas_fails:
-            payload['break_db_after_checkpoint'] = '/dev/null/git-ai-vreplay/db'
         exe = native.__globals__['replay_binary']()
-        p = subprocess.run([exe, 'c08_post_commit'], input=json.dumps(payload).encode(), stdout=subprocess.PIPE, stderr=subprocess.PIPE, env=env, timeout=120)
+        repo_dir = os.path.join(home, 'repo')
+        p0 = subprocess.run([exe, 'c08_prepare'], input=json.dumps({'dir': repo_dir, 'prompts': inp.get('prompts', 1)}).encode(), stdout=subprocess.PIPE, stderr=subprocess.PIPE, env=env, timeout=120)
+        if p0.returncode != 0:
+            return {'reproduced': False, 'note': 'could not stage the checkpoints: %s' % p0.stderr.decode('utf-8', 'replace')[-300:]}
+        ids = json.loads(p0.stdout.decode().strip().split('\n')[-1])
+        env2 = dict(env)
+        if cas_fails:
+            env2['GIT_AI_TEST_DB_PATH'] = '/dev/null/git-ai-vreplay/db'
+            env2['GITAI_TEST_DB_PATH'] = '/dev/null/git-ai-vreplay/db'
+        p = subprocess.run([exe, 'c08_post_commit'], input=json.dumps({'dir': repo_dir, 'parent': ids['parent'], 'commit': ids['commit']}).encode(),
+                           stdout=subprocess.PIPE, stderr=subprocess.PIPE, env=env2, timeout=120)
         if p.returncode == 101:
             return {'reproduced': v['kind'] == 'panic', 'stderr': p.stderr.decode('utf-8', 'replace')[-400:]}
         r = json.loads(p.stdout.decode().strip().split('\n')[-1])
